@@ -1,0 +1,69 @@
+use std::marker::PhantomData;
+
+/// Iterator over `len` consecutive initialized elements starting at `ptr`.
+///
+/// The chunk owns the elements, but not the memory they live in:
+/// `next` moves an element out, elements which are not yielded are dropped together with the chunk,
+/// and the memory is never freed here.
+pub(crate) struct RawChunk<T> {
+    ptr: *mut T,
+    len: usize,
+    phantom: PhantomData<T>,
+}
+
+impl<T> RawChunk<T> {
+    /// # Safety
+    ///
+    /// The `len` elements starting at `ptr` must be initialized, must not be accessed by anyone else,
+    /// and the memory must outlive the chunk.
+    pub(crate) unsafe fn new(ptr: *mut T, len: usize) -> Self {
+        Self {
+            ptr,
+            len,
+            phantom: PhantomData,
+        }
+    }
+}
+
+impl<T> Iterator for RawChunk<T> {
+    type Item = T;
+
+    #[inline]
+    fn next(&mut self) -> Option<Self::Item> {
+        match self.len {
+            0 => None,
+            _ => {
+                // SAFETY: the element is initialized, and it is skipped from now on
+                let value = unsafe { self.ptr.read() };
+                self.ptr = unsafe { self.ptr.add(1) };
+                self.len -= 1;
+                Some(value)
+            }
+        }
+    }
+
+    #[inline]
+    fn size_hint(&self) -> (usize, Option<usize>) {
+        (self.len, Some(self.len))
+    }
+}
+
+impl<T> ExactSizeIterator for RawChunk<T> {
+    #[inline]
+    fn len(&self) -> usize {
+        self.len
+    }
+}
+
+impl<T> Drop for RawChunk<T> {
+    fn drop(&mut self) {
+        let remaining = std::ptr::slice_from_raw_parts_mut(self.ptr, self.len);
+        self.len = 0;
+        // SAFETY: the remaining elements are initialized and owned by the chunk
+        unsafe { std::ptr::drop_in_place(remaining) };
+    }
+}
+
+unsafe impl<T: Send> Send for RawChunk<T> {}
+
+unsafe impl<T: Sync> Sync for RawChunk<T> {}
